@@ -1,7 +1,7 @@
 #!/bin/bash
 # tools/benign_setup.sh <N> <id...>: prepares /tmp/benignwork/<id>/ for a sub-agent writing behaviour-preserving refactors.
 n=$1; shift
-root=/tmp/benignwork; mkdir -p $root
+root=${BENIGN_ROOT:-/tmp/benignwork}; mkdir -p $root
 for id in "$@"; do
   d=$root/$id; mkdir -p $d/out
   python3 - "$id" > $d/PROPERTY.txt <<'PY'
@@ -13,6 +13,6 @@ for l in open('/verif/properties.jsonl'):
         print("QUANTIFIED OVER:", p['quantifier']['text']); print()
         print("ANCHORS:", json.dumps(p['anchors'], indent=1))
 PY
-  sed "s/@ID@/$id/g; s/@N@/$n/g" /verif/tools/benign_prompt.tmpl > $d/PROMPT.txt
+  sed "s#/tmp/benignwork/@ID@#$d#g; s/@ID@/$id/g; s/@N@/$n/g" /verif/tools/benign_prompt.tmpl > $d/PROMPT.txt
   git -C /repo worktree add -q --detach $d/wt HEAD
 done
